@@ -5,7 +5,9 @@ package c12
 
 import (
 	"fmt"
+	"os"
 	"strings"
+	"time"
 
 	"verifharness/c10"
 	"verifharness/gx"
@@ -25,7 +27,14 @@ const Rule = "cases = (LL(1) grammar, iteration-shuffle seed, token strings): ra
 	"the longer sentences, judged against an independent textbook LL(1) run cut at the first failing call (the error must " +
 	"come back, the callbacks made must be exactly those before it) — `astf`, `parse0` (nil callbacks), `cell A a` (table " +
 	"accessors), every other grammar with a terminal named like a non-terminal; and grammars broken in each way Verify() " +
-	"reports, with `verify` and the parser run all the same (judged against the Model only); non-trivial = conflict-free grammar for which the case parsed a sentence, " +
+	"reports, with `verify` and the parser run all the same (judged against the Model only); plus (hardening round): the " +
+	"lexer of every case ends its input in one of seven ways in turn (header eof=: io.EOF, wrapped once / twice, an error type " +
+	"with an Is method, errors.Join, a token beside io.EOF, a token beside a wrapped io.EOF) - the Model sees the tokens only; " +
+	"ONE PARSER OBJECT for many inputs (`keep parser P`, `with P parse w`) with the grammar it was made for edited in place " +
+	"between them in every way c10.RandomEdit knows, a second parser made later, a failing parse (lexer, callback) followed by " +
+	"one that does not fail, each judged against the grammar as it is at that moment; size thresholds: 63..1025 (thorough " +
+	"0..4097) tokens, as deep a stack (the parser's and the AST builder's stacks grow in blocks of 1024), 65 and 257 parses by " +
+	"one parser object; two cases out of five under renamed symbols (c10.NameSchemes); non-trivial = conflict-free grammar for which the case parsed a sentence, " +
 	"a non-sentence, and a sentence followed by further tokens; distinct = distinct (header, op list)"
 
 func Exec(c hx.Case) hx.Result { return c10.Exec(c) }
@@ -59,6 +68,13 @@ func Ops(r *hx.Rand, g gx.G, k int) []string {
 
 func Main(run *hx.Run) {
 	run.Stats.Rule = Rule
+	t0 := time.Now()
+	lap := func(what string) {
+		if os.Getenv("VERIF_TIMING") != "" {
+			fmt.Fprintf(os.Stderr, "c12 %-16s %6.1fs\n", what, time.Since(t0).Seconds())
+		}
+		t0 = time.Now()
+	}
 	for _, f := range hx.CorpusFiles("C12") {
 		cs, _ := hx.ReadReplay(f)
 		for _, c := range cs {
@@ -68,6 +84,8 @@ func Main(run *hx.Run) {
 	mixes := c10.Mixes()
 	names := hx.SortedKeys(mixes)
 	tried, kept := 0, 0
+	// how the lexer of a case says that its input is over: every kind in turn
+	eof := func(k int) string { return c10.EOFKinds[k%len(c10.EOFKinds)] }
 	for _, name := range names {
 		r := run.R.Fork(name)
 		n := run.Scale(70)
@@ -90,12 +108,14 @@ func Main(run *hx.Run) {
 			if len(g.Terms) == 3 {
 				wl = 4 + r.Intn(2) // 121 or 364 words
 			}
-			c := hx.Case{Header: fmt.Sprintf("comp=predictive mix=%s shuffle=%d", name, r.Intn(1<<30)), Ops: Ops(r, g, wl)}
+			g, nm := c10.MaybeRename(r, g, k)
+			c := hx.Case{Header: fmt.Sprintf("comp=predictive mix=%s names=%s eof=%s shuffle=%d", name, nm, eof(k), r.Intn(1<<30)), Ops: Ops(r, g, wl)}
 			run.Do("predictive", c, Exec)
 		}
 	}
 	// the same *CFG object changed in place between parser constructions
 	{
+		lap("before in-place")
 		r := run.R.Fork("in-place")
 		for k := 0; k < run.Scale(80); {
 			g := gx.Random(r, mixes["near-ll1"])
@@ -103,6 +123,7 @@ func Main(run *hx.Run) {
 				continue
 			}
 			k++
+			g, nm := c10.MaybeRename(r, g, k)
 			ops := Ops(r, g, 4)
 			g2 := g
 			for round := 0; round < 2; round++ {
@@ -119,7 +140,7 @@ func Main(run *hx.Run) {
 					ops = append(ops, Ops(r, g2, 4)[len(g2.Lines()):]...)
 				}
 			}
-			c := hx.Case{Header: fmt.Sprintf("comp=predictive mix=in-place shuffle=%d", r.Intn(1<<30)), Ops: ops}
+			c := hx.Case{Header: fmt.Sprintf("comp=predictive mix=in-place names=%s eof=%s shuffle=%d", nm, eof(k), r.Intn(1<<30)), Ops: ops}
 			run.Do("predictive", c, Exec)
 		}
 	}
@@ -127,14 +148,16 @@ func Main(run *hx.Run) {
 	// hand that error back and have made exactly the calls before it), ParseAndBuildAST on a failing lexer, Parse
 	// without callbacks, the table accessors; every other grammar with a terminal named like a non-terminal
 	{
+		lap("before faults")
 		r := run.R.Fork("faults")
 		for k := 0; k < run.Scale(110); {
 			g := gx.Random(r, mixes[names[r.Intn(len(names))]])
-			if k%2 == 1 {
-				g = c10.SharedNames(r, g)
-			}
 			if !c10.NewOracle(g).ConflictFree() {
 				continue
+			}
+			g, nm := c10.MaybeRename(r, g, k/2)
+			if k%2 == 1 {
+				g = c10.SharedNames(r, g)
 			}
 			k++
 			ops := append(g.Lines(), "verify", "table")
@@ -153,17 +176,19 @@ func Main(run *hx.Run) {
 			if r.Chance(1, 4) {
 				ops = append(ops, "follow Z")
 			}
-			c := hx.Case{Header: fmt.Sprintf("comp=predictive mix=faults shuffle=%d", r.Intn(1<<30)), Ops: ops}
+			c := hx.Case{Header: fmt.Sprintf("comp=predictive mix=faults names=%s eof=%s shuffle=%d", nm, eof(k), r.Intn(1<<30)), Ops: ops}
 			run.Do("predictive", c, Exec)
 		}
 	}
 	// grammars Verify() rejects handed to the parser all the same: which errors Verify() reports, where the table
 	// construction dereferences nil (Parse panics), what the parser answers when it does not
 	{
+		lap("before malformed")
 		r := run.R.Fork("malformed")
 		for k := 0; k < run.Scale(140); k++ {
-			g := c10.Malform(r, gx.Random(r, mixes["near-ll1"]), k)
-			ops := append(g.Lines(), "verify", "parse a")
+			g, nm := c10.MaybeRename(r, gx.Random(r, mixes["near-ll1"]), k/2)
+			g = c10.Malform(r, g, k)
+			ops := append(g.Lines(), "verify", "parse "+g.Terms[0])
 			ws := g.Words(2)
 			var qs []string
 			for j := 0; j < 4; j++ {
@@ -173,18 +198,111 @@ func Main(run *hx.Run) {
 					qs = append(qs, strings.TrimRight("!ast "+w, " "), strings.TrimRight(fmt.Sprintf("!parsef %d - 1 : %s", r.Intn(3), w), " "))
 				}
 			}
-			qs = append(qs, "!parse a z", "!table", "!cell "+hx.Pick(r, g.NonTerms)+" "+hx.Pick(r, g.Terms))
+			qs = append(qs, "!parse "+g.Terms[0]+" z", "!table", "!cell "+hx.Pick(r, g.NonTerms)+" "+hx.Pick(r, g.Terms))
 			for i := len(qs) - 1; i > 0; i-- {
 				j := r.Intn(i + 1)
 				qs[i], qs[j] = qs[j], qs[i]
 			}
 			ops = append(append(ops, qs...), "unchanged")
-			c := hx.Case{Header: fmt.Sprintf("comp=predictive mix=malformed shuffle=%d", r.Intn(1<<30)), Ops: ops}
+			c := hx.Case{Header: fmt.Sprintf("comp=predictive mix=malformed names=%s eof=%s shuffle=%d", nm, eof(k), r.Intn(1<<30)), Ops: ops}
 			run.Do("predictive", c, Exec)
+		}
+	}
+	// ONE parser object for many inputs, the grammar it was made for edited in place between them (every kind of edit of
+	// c10.RandomEdit), and a second parser made later; a parse that fails (lexer, callback) followed by one that does not
+	{
+		lap("before parser-objects")
+		r := run.R.Fork("parser-objects")
+		for k := 0; k < run.Scale(90); {
+			g := gx.Random(r, mixes["near-ll1"])
+			if !c10.NewOracle(g).ConflictFree() {
+				continue
+			}
+			k++
+			g, nm := c10.MaybeRename(r, g, k)
+			use := func(h gx.G, name string, wl int) []string {
+				var qs []string
+				lang := h.LangK(wl)
+				for _, w := range h.Words(wl) {
+					cmd := "parse"
+					if lang[w] && r.Chance(1, 3) {
+						cmd = "ast"
+					}
+					qs = append(qs, strings.TrimRight("with "+name+" "+cmd+" "+w, " "))
+					if r.Chance(1, 25) {
+						qs = append(qs, strings.TrimRight(fmt.Sprintf("with %s parsef %d - - : %s", name, r.Intn(3), w), " "),
+							strings.TrimRight("with "+name+" parse "+w, " "))
+					}
+				}
+				return qs
+			}
+			ops := append(g.Lines(), "keep parser P1")
+			ops = append(ops, use(g, "P1", 3)...)
+			g2 := g
+			for round := 0; round < 3; round++ {
+				ls := c10.RandomEdit(r, &g2, k+round, round)
+				if ls == nil {
+					ls = c10.RandomEdit(r, &g2, 0, round)
+				}
+				ops = append(ops, ls...)
+				ops = append(ops, use(g2, "P1", 3)...)
+				if round == 1 {
+					ops = append(ops, "keep parser P2")
+				}
+				if round == 2 {
+					ops = append(ops, use(g2, "P2", 2)...)
+				}
+				ops = append(ops, "table")
+			}
+			ops = append(ops, "unchanged")
+			c := hx.Case{Header: fmt.Sprintf("comp=predictive mix=parser-objects names=%s eof=%s shuffle=%d", nm, eof(k), r.Intn(1<<30)), Ops: ops}
+			run.Do("predictive", c, Exec)
+		}
+	}
+	// size thresholds: the number of tokens (S -> a S | eps), the depth of the stack (S -> ( S ) | a; the stacks of the
+	// parser and of the AST construction grow in blocks of 1024), the number of parses made by one parser object
+	{
+		lap("before sweep")
+		r := run.R.Fork("sweep")
+		rep := func(t string, n int) string { return strings.TrimSpace(strings.Repeat(t+" ", n)) }
+		sizes := []int{63, 64, 65, 255, 256, 257, 1023, 1024, 1025}
+		if run.Thorough() {
+			sizes = []int{0, 1, 2, 63, 64, 65, 127, 128, 129, 255, 256, 257, 511, 512, 513, 1023, 1024, 1025, 2047, 2048, 2049, 4095, 4096, 4097}
+		}
+		list := gx.G{Terms: []string{"a", "b"}, NonTerms: []string{"S"}, Start: "S", Prods: []gx.P{{Head: "S", Body: []string{"a", "S"}}, {Head: "S"}}}
+		paren := gx.G{Terms: []string{"(", ")", "a"}, NonTerms: []string{"S"}, Start: "S",
+			Prods: []gx.P{{Head: "S", Body: []string{"(", "S", ")"}}, {Head: "S", Body: []string{"a"}}}}
+		for i, n := range sizes {
+			ops := append(list.Lines(), "keep parser P1", "parse "+rep("a", n), strings.TrimRight("with P1 parse "+rep("a", n), " "), "parse "+rep("a", n)+" b",
+				strings.TrimRight("ast "+rep("a", n), " "), strings.TrimRight(fmt.Sprintf("parsef %d - - : %s", n, rep("a", n)), " "),
+				strings.TrimRight(fmt.Sprintf("parsef - %d - : %s a", n, rep("a", n)), " "), strings.TrimRight(fmt.Sprintf("parsef - - %d : %s", n, rep("a", n)), " "), "unchanged")
+			if run.Thorough() || n <= 257 || n == 1024 {
+				run.Do("predictive", hx.Case{Header: fmt.Sprintf("comp=predictive mix=sweep dim=tokens size=%d eof=%s shuffle=%d", n, eof(i), r.Intn(1<<30)), Ops: ops}, Exec)
+			}
+			if n == 0 || (!run.Thorough() && n > 65 && n < 1023) {
+				continue
+			}
+			ops = append(paren.Lines(), "keep parser P1",
+				"parse "+rep("(", n)+" a "+rep(")", n), "with P1 ast "+rep("(", n)+" a "+rep(")", n),
+				"parse "+rep("(", n)+" a "+rep(")", n-1), "with P1 parse "+rep("(", n)+" a "+rep(")", n+1), "unchanged")
+			run.Do("predictive", hx.Case{Header: fmt.Sprintf("comp=predictive mix=sweep dim=depth size=%d eof=%s shuffle=%d", n, eof(i+1), r.Intn(1<<30)), Ops: ops}, Exec)
+		}
+		for i, n := range []int{65, 257} {
+			ops := append(paren.Lines(), "keep parser P1")
+			ws := paren.Words(3)
+			for j := 0; j < n; j++ {
+				ops = append(ops, strings.TrimRight("with P1 parse "+ws[r.Intn(len(ws))], " "))
+				if j == n/2 {
+					ops = append(ops, "getadd S : a a", "with P1 parse a a", "getremove S : a a", "with P1 parse a a")
+				}
+			}
+			ops = append(ops, "with P1 parse ( a )", "unchanged")
+			run.Do("predictive", hx.Case{Header: fmt.Sprintf("comp=predictive mix=sweep dim=parses size=%d eof=%s shuffle=%d", n, eof(i), r.Intn(1<<30)), Ops: ops}, Exec)
 		}
 	}
 	// very deep nestings through the real parser
 	{
+		lap("before deep")
 		r := run.R.Fork("deep")
 		rep := func(t string, n int) string { return strings.TrimSpace(strings.Repeat(t+" ", n)) }
 		for k := 0; k < run.Scale(2); k++ {
@@ -196,7 +314,7 @@ func Main(run *hx.Run) {
 				"parse "+rep("(", n)+" a "+rep(")", n-1),
 				"parse "+rep("(", n)+" a "+rep(")", n+1),
 				"ast "+rep("(", n)+" a "+rep(")", n), "unchanged")
-			run.Do("predictive", hx.Case{Header: fmt.Sprintf("comp=predictive mix=deep-paren depth=%d shuffle=%d", n, r.Intn(1<<30)), Ops: ops}, Exec)
+			run.Do("predictive", hx.Case{Header: fmt.Sprintf("comp=predictive mix=deep-paren depth=%d eof=%s shuffle=%d", n, eof(3*k), r.Intn(1<<30)), Ops: ops}, Exec)
 
 			tail := gx.G{Terms: []string{"a", "b", "c"}, NonTerms: []string{"S", "B"}, Start: "S",
 				Prods: []gx.P{{Head: "S", Body: []string{"a", "S", "B"}}, {Head: "S", Body: []string{"c"}}, {Head: "B", Body: []string{"b"}}, {Head: "B"}}}
@@ -206,7 +324,7 @@ func Main(run *hx.Run) {
 				"parse "+rep("a", n)+" c "+rep("b", m),
 				"parse "+rep("a", n)+" c "+rep("b", n+1),
 				"ast "+rep("a", n)+" c "+rep("b", m), "unchanged")
-			run.Do("predictive", hx.Case{Header: fmt.Sprintf("comp=predictive mix=deep-tail depth=%d shuffle=%d", n, r.Intn(1<<30)), Ops: ops}, Exec)
+			run.Do("predictive", hx.Case{Header: fmt.Sprintf("comp=predictive mix=deep-tail depth=%d eof=%s shuffle=%d", n, eof(3*k+1), r.Intn(1<<30)), Ops: ops}, Exec)
 
 			expr := gx.G{Terms: []string{"+", "*", "(", ")", "id"}, NonTerms: []string{"E", "E'", "T", "T'", "F"}, Start: "E",
 				Prods: []gx.P{{Head: "E", Body: []string{"T", "E'"}}, {Head: "E'", Body: []string{"+", "T", "E'"}}, {Head: "E'"},
@@ -217,9 +335,10 @@ func Main(run *hx.Run) {
 				"parse "+rep("(", d)+" id + id "+rep(")", d)+" * id",
 				"parse "+rep("(", d)+" id + id "+rep(")", d)+" id",
 				"ast "+rep("(", d)+" id "+rep(")", d), "unchanged")
-			run.Do("predictive", hx.Case{Header: fmt.Sprintf("comp=predictive mix=deep-expr depth=%d shuffle=%d", d, r.Intn(1<<30)), Ops: ops}, Exec)
+			run.Do("predictive", hx.Case{Header: fmt.Sprintf("comp=predictive mix=deep-expr depth=%d eof=%s shuffle=%d", d, eof(3*k+2), r.Intn(1<<30)), Ops: ops}, Exec)
 		}
 	}
+	lap("deep")
 	run.Stats.Extra["grammars_drawn"] = tried
 	run.Stats.Extra["grammars_kept"] = kept
 	if run.Thorough() {
